@@ -1,8 +1,8 @@
 (** C04 — text assigned is the text read back, with only the documented translations.
     Statements over model/Text.v; proofs in proofs/Text_proofs.v. *)
 From V.lib Require Import Prelude.
-From V.model Require Import Text Escape TextRun.
-From V.proofs Require Import Text_proofs Escape_proofs.
+From V.model Require Import Text Escape TextRun TextCodec.
+From V.proofs Require Import Text_proofs Escape_proofs TextCodec_proofs.
 
 (** The translations are the documented ones, character by character:
     frame / cell: TAB, LF, VT stay, any other C0 control becomes its escape;
@@ -172,6 +172,127 @@ Example C04_ex_reopen_leaf :
   lex_text (lxml_text_escape [32; 13; 10; 9; 60; 38; 62; 32]%N) = OneText [32; 13; 10; 9; 60; 38; 62; 32]%N /\
   xml_str (tr_run [32; 13; 7; 11]%N) = true.
 Proof. vm_compute. split; reflexivity. Qed.
+
+(** ---- save / re-open at the level of a whole text body ----
+    model/TextCodec.v: enc_body writes the a:txBody the way lxml serialises the tree python-pptx built, dec_body reads
+    such a text the way pptx.oxml.parse_xml does (element text through Escape.lex_text, which contains libxml2's
+    blank-text removal); both tied to the real serialiser and parser by the correspondence (ops se / pa, signature
+    correspondence-codec).  The hypothesis reparse (ser b) = b of C04_reopen is discharged for this codec on every body
+    whose run and field texts are strings of XML characters (xml_body), and every body the setters produce from strings
+    of XML characters and C0 controls (api_str: everything lxml accepts from the setters) is such a body. *)
+
+(** the text escaping of the codec is the one of the leaf level (op lx) *)
+Theorem C04_codec_text_escape : forall s, esc_text s = lxml_text_escape s.
+Proof. exact (fun s => eq_refl). Qed.
+Print Assumptions C04_codec_text_escape.
+
+(** the reader gives back the body the writer was given: any number of paragraphs, children, characters *)
+Theorem C04_codec_roundtrip : forall b, xml_body b = true -> dec_body (enc_body b) = Some b.
+Proof. exact dec_enc_body. Qed.
+Print Assumptions C04_codec_roundtrip.
+
+(** ... also when every empty a:t is written with a start and an end tag (the empty text node that assigning the
+    empty string to run.text leaves; the model of the tree does not tell the two apart) *)
+Theorem C04_codec_roundtrip_empty_text_node : forall long b, xml_body b = true ->
+  dec_body (enc_body_g long b) = Some b.
+Proof. exact dec_enc_body_g. Qed.
+Print Assumptions C04_codec_roundtrip_empty_text_node.
+
+(** what a setter stores in an a:t is a string of XML characters EXACTLY when the assigned string is made of XML
+    characters and C0 controls (every C0 control but TAB and LF is escaped before it reaches lxml) *)
+Theorem C04_api_text_is_xml : forall s, xml_str (tr_run s) = api_str s.
+Proof. exact xml_tr_run. Qed.
+Print Assumptions C04_api_text_is_xml.
+
+Theorem C04_api_frame_is_xml : forall s b, api_str s = true -> xml_body (set_frame s b) = true.
+Proof. exact xml_set_frame. Qed.
+Print Assumptions C04_api_frame_is_xml.
+
+Theorem C04_api_para_is_xml : forall s p, api_str s = true -> xml_para (set_para s p) = true.
+Proof. exact xml_set_para. Qed.
+Print Assumptions C04_api_para_is_xml.
+
+Theorem C04_api_run_is_xml : forall s i, api_str s = true -> xml_item i = true -> xml_item (set_run s i) = true.
+Proof. exact xml_set_run. Qed.
+Print Assumptions C04_api_run_is_xml.
+
+(** any history of operations with such strings, from any state that was read from XML *)
+Theorem C04_api_history_is_xml : forall ops c, forallb api_op ops = true -> xml_cell c = true ->
+  xml_cell (run_ops ops c) = true.
+Proof. exact xml_run_ops. Qed.
+Print Assumptions C04_api_history_is_xml.
+
+(** frame level, ANY prior body: the re-opened body is the saved one and its text is the documented translation *)
+Theorem C04_reopen_frame : forall s b, api_str s = true ->
+  dec_body (enc_body (set_frame s b)) = Some (set_frame s b) /\
+  option_map get_frame (dec_body (enc_body (set_frame s b))) = Some (tr_frame s).
+Proof. exact reopen_frame. Qed.
+Print Assumptions C04_reopen_frame.
+
+(** paragraph level: paragraphs[i].text = s in a body of XML characters, saved and re-opened *)
+Theorem C04_reopen_para : forall s b i p, api_str s = true -> xml_body b = true -> nth_error (paras b) i = Some p ->
+  let b' := mkBody (bodypr b) (replace_nth i (set_para s p) (paras b)) in
+  fst (apply_op (OPara i s) (Some b)) = Some b' /\
+  dec_body (enc_body b') = Some b' /\
+  option_map (fun bb => option_map get_para (nth_error (paras bb) i)) (dec_body (enc_body b')) =
+    Some (Some (tr_para s)).
+Proof. exact reopen_para. Qed.
+Print Assumptions C04_reopen_para.
+
+(** run level: paragraphs[i].runs[j].text = s in a body of XML characters, saved and re-opened *)
+Theorem C04_reopen_run : forall s b i j p p', api_str s = true -> xml_body b = true ->
+  nth_error (paras b) i = Some p -> update_run j (set_run s) p = Some p' ->
+  let b' := mkBody (bodypr b) (replace_nth i p' (paras b)) in
+  fst (apply_op (ORun i j s) (Some b)) = Some b' /\
+  dec_body (enc_body b') = Some b' /\
+  option_map (fun bb => match nth_error (paras bb) i with
+                        | Some q => option_map get_run (nth_error (runs_of q) j)
+                        | None => None end) (dec_body (enc_body b')) = Some (Some (tr_run s)).
+Proof. exact reopen_run. Qed.
+Print Assumptions C04_reopen_run.
+
+(** the body after ANY history of operations the interface accepts survives any number of save / re-open cycles *)
+Theorem C04_reopen_history : forall n ops c, forallb api_op ops = true -> xml_cell c = true ->
+  reopen_cycles n (cell_body (run_ops ops c)) = Some (cell_body (run_ops ops c)).
+Proof. exact reopen_cycles_history. Qed.
+Print Assumptions C04_reopen_history.
+
+(** C04_reopen with its hypothesis discharged: n cycles through the concrete codec *)
+Theorem C04_reopen_cycles : forall n s b, api_str s = true ->
+  option_map get_frame (reopen_cycles n (set_frame s b)) = Some (tr_frame s).
+Proof. exact reopen_cycles_frame. Qed.
+Print Assumptions C04_reopen_cycles.
+
+(* non-vacuity: a body with every kind of child (markup characters, CR, CR LF, TAB, blanks only, edge blanks, non-ASCII,
+   astral, the CDATA-end sequence, empty run, empty field, empty paragraph, property numbers 0 and 1800) meets xml_body
+   and is read back, three cycles included; a run text holding U+0000 is outside xml_body and is NOT read back; a string
+   with BEL, CR, VT, markup and LF meets api_str without being a string of XML characters *)
+Example C04_ex_codec :
+  let b := mkBody 7 [[PPr 3; It (R (Some 1800) [32; 60; 38; 62; 13; 10; 9; 32]); It Br; It (Fld [49; 50]);
+                      It (R None []); It (Fld []); It (R (Some 0) [32; 32]); It (R None [233; 128512; 93; 93; 62]); EndRPr 4];
+                     []; [It (R None [13])]; [EndRPr 0; PPr 0]]%N in
+  xml_body b = true /\ dec_body (enc_body b) = Some b /\ dec_body (enc_body_g true b) = Some b /\
+  reopen_cycles 3 b = Some b.
+Proof. vm_compute. repeat split; reflexivity. Qed.
+
+Example C04_ex_codec_needs_xml_chars :
+  let b := mkBody 0 [[It (R None [0%N])]] in xml_body b = false /\ dec_body (enc_body b) = None.
+Proof. vm_compute. split; reflexivity. Qed.
+
+Example C04_ex_api_str :
+  api_str [97; 7; 13; 11; 60; 10; 38; 128512]%N = true /\ xml_str [97; 7; 13; 11; 60; 10; 38; 128512]%N = false /\
+  api_op (OPara 0 [7]%N) = true /\ xml_cell None = true.
+Proof. vm_compute. repeat split; reflexivity. Qed.
+
+(* the hypotheses of C04_reopen_para / C04_reopen_run are met: second run of the first paragraph, VT and CR assigned *)
+Example C04_ex_reopen_run :
+  let p := [PPr 3; It (R None [97; 32]); It Br; It (R (Some 9) [98]); EndRPr 4]%N in
+  let b := mkBody 7 [p; []]%N in
+  xml_body b = true /\ nth_error (paras b) 0 = Some p /\ api_str [11; 13; 9]%N = true /\
+  update_run 1 (set_run [11; 13; 9]%N) p =
+    Some [PPr 3; It (R None [97; 32]); It Br;
+          It (R (Some 9) [95; 120; 48; 48; 48; 66; 95; 95; 120; 48; 48; 48; 68; 95; 9]); EndRPr 4]%N.
+Proof. vm_compute. repeat split; reflexivity. Qed.
 
 (** ---- non-vacuity ---- *)
 (* frame: a, LF, VT, b, space, BEL onto a body with two paragraphs and properties *)
